@@ -123,8 +123,6 @@ def run(tier, seed):
                feature_histogram=feats, kernel_reevaluated=nk, kleene_steps=K_ENCL,
                samples=[dict(spec=gen.spec_jsonable(s0[0]), semiring=repr(s0[1]), method=s0[2], tol=s0[3], kmax=s0[4], observed=s0[5])] if s0 else [],
                open_items=["Newton iterates between Kleene iterates and the least fixed point (EKL) -- tier B; newton/linear values are judged by the enclosure oracle, not by a model of the iteration",
-                           "C02_trop_exact, C02_real_enclosure_sound, C02_fp_check_trop_sound, C02_fp_check_real_sound keep the law records (sr_ring, sr_ordered) of trop_ops / ereal_ops as premises until Proofs/SemiringLaws.v (C08) is merged; the Bool instances are unconditional",
-                           "C02_kleene_is_bounded_depth (Zk = sum over derivation trees of depth <= k) is proved separately in Proofs/SP_trees.v; the theorems here speak about Zk",
                            "must_warn unrolls the first kmax+1 stopping tests (kmax in {1,2}) on tables built with the code-shaped F_model; the loop theorems (C02_fixed_point_warns_iff, C02_newton_warns_iff) are about an abstract F/close -- F_model = step on the range (C01's spe theorem lifted to recursive components) is not connected here",
                            "C02_linear_affine gives F x = J0.x + F0 with linear's J0/F0; that multi_solve J0 F0 is the least solution is C09's theorem and is not connected here; C02_scc_decomposition is proved for exactly solved components (Prop-level exact_run), not for the table-level driver with approximate per-component results"])
     return cov, violations
